@@ -869,7 +869,7 @@ func checkProperty(id, tier string) int {
 	// bounded stand-ins
 	var boundedOut []map[string]interface{}
 	for _, bc := range prop.BoundedChecks {
-		out, failedB, err := runBoundedCheck(bc)
+		out, failedB, err := runBoundedCheck(bc, tier)
 		st := "held on every input within the bound"
 		if err != nil {
 			st = "could not run: " + err.Error()
@@ -988,7 +988,7 @@ func writeReplay(id, name string, payload map[string]interface{}) string {
 	return p
 }
 
-func runBoundedCheck(bc BoundedCheck) (string, bool, error) {
+func runBoundedCheck(bc BoundedCheck, tier string) (string, bool, error) {
 	src := filepath.Join(verifDir(), "bounded", bc.File)
 	if _, err := os.Stat(src); err != nil {
 		return "", false, err
@@ -1007,7 +1007,7 @@ func runBoundedCheck(bc BoundedCheck) (string, bool, error) {
 	defer cancel()
 	cmd := exec.CommandContext(ctx, "go", "test", "-overlay", of, "-vet=off", "-count=1", "-timeout", "240s", "-run", "^TestGovcBounded", ".")
 	cmd.Dir = dir
-	cmd.Env = append(os.Environ(), "GOFLAGS=-mod=mod", "GOPROXY=off", "GOSUMDB=off", "GOTOOLCHAIN=local", "DTAIL_HOSTNAME_OVERRIDE=replayhost")
+	cmd.Env = append(os.Environ(), "GOFLAGS=-mod=mod", "GOPROXY=off", "GOSUMDB=off", "GOTOOLCHAIN=local", "DTAIL_HOSTNAME_OVERRIDE=replayhost", "GOVC_TIER="+tier)
 	var out bytes.Buffer
 	cmd.Stdout = &out
 	cmd.Stderr = &out
